@@ -164,8 +164,10 @@ def _(E, m, a, c0):
     elif x.variant == 'None': r = z3.BoolVal(True)
     else:
         p, q = E.deref(x.fields[0]), E.deref(y.fields[0])
-        if not (z3.is_expr(p) and z3.is_expr(q)): raise Missing('Option eq on structured payload')
-        r = p == q
+        if isinstance(p, Rat) and isinstance(q, Rat): r = p.v == q.v
+        elif isinstance(p, F64) and isinstance(q, F64): r = E.fcmp('Eq', p, q)
+        elif z3.is_expr(p) and z3.is_expr(q): r = p == q
+        else: raise Missing('Option eq on structured payload')
     return r if m.group(1) == 'eq' else z3.Not(r)
 
 # ------------------------------------------------------------------ mem / misc
